@@ -290,6 +290,48 @@ static std::string runThreads()
   return showState();
 }
 
+// acq_race k rounds: object k is referenced exactly once (its creator); in every round three threads each construct a
+// handle from the raw pointer at the same moment (common spin barrier) - legal, the creator keeps the object alive -
+// and the main thread then checks useCount() == 1 + 3 before the handles are dropped again.
+static std::string acqRace(int k, int rounds)
+{
+  Node *obj = g->objs[k];
+  const long base = obj->useCount();
+  int lost = 0;
+  std::atomic<int> ready{0}, round{0}, done{0};
+  std::atomic<bool> stop{false};
+  const int T = 3;
+  Ref<Base> held[T];
+  std::vector<std::thread> ts;
+  for (int t = 0; t < T; t++)
+    ts.emplace_back([&, t]() {
+      for (int r = 1;; r++) {
+        ready++;
+        while (round.load() < r && !stop.load()) {}
+        if (stop.load()) return;
+        held[t] = Ref<Base>(obj);   // refInc from the raw pointer
+        done++;
+      }
+    });
+  for (int r = 1; r <= rounds; r++) {
+    while (ready.load() < T * r) {}
+    done = 0;
+    round = r;
+    while (done.load() < T) {}
+    long c = obj->useCount();
+    if (c != base + T) {
+      ++lost;
+      for (long i = c; i < base + T; i++) obj->refInc();   // repair the count so that the handles can be dropped
+    }
+    for (int t = 0; t < T; t++) held[t] = nullptr;
+    if (lost) break;
+  }
+  while (ready.load() < T * (round.load() + 1)) {}
+  stop = true;
+  for (auto &t : ts) t.join();
+  return "lost=" + std::to_string(lost);
+}
+
 int main()
 {
   auto reset = [&]() {
@@ -315,6 +357,11 @@ int main()
       return "ok";
     }
     if (w[0] == "mtrun") return runThreads();
+    if (w[0] == "acq_race" && w.size() == 3) {
+      int k = std::stoi(w[1]);
+      if (k < 0 || k >= g->nobj || !g_live[k]) return "bad-op";
+      return acqRace(k, std::stoi(w[2]));
+    }
     POp o = parseOp(w);
     if (o.code == BAD) return "bad-op";
     if ((o.code == CTOR_RAW || o.code == RAW || o.code == INC || o.code == DEC) && (o.k < 0 || o.k >= g->nobj))
